@@ -55,6 +55,12 @@ class Font:
     def key(self):
         return (self.kind, self.seed, self.tone, int(self.dotted), int(self.shared))
 
+    def present(self, role):
+        """does the font have the feature that shows `role` (1 ljmo, 2 vjmo, 3 tjmo)? Layouts 2..4 lack some."""
+        if role == 0:
+            return True
+        return {2: role == 3, 3: role in (2, 3), 4: role == 1}.get(self.shared, True)
+
     def has(self, cp):
         if 0x61 <= cp <= 0x65:
             return True
@@ -80,7 +86,7 @@ class Font:
     def describe(self):
         return {"kind": ["syllables+jamo", "jamo only", "syllables only", "mixed (seeded)"][self.kind], "seed": self.seed,
                 "tone_marks": ["absent", "advance 1000", "advance 0"][self.tone], "dotted_circle": bool(self.dotted),
-                "gsub_layout": "vjmo and tjmo share a lookup" if self.shared else "one lookup per feature"}
+                "gsub_layout": ["one lookup per feature", "vjmo and tjmo share a lookup", "tjmo only", "tjmo and vjmo only", "ljmo only"][self.shared]}
 
 
 # ------------------------------------------------------------------ the property's oracle (per item)
@@ -384,7 +390,8 @@ def plan(chk, thorough):
     seed = int(chk.seed)
     rng = random.Random(seed * 1000003 + 12)
     fonts = [Font(0, 0, 1, 1), Font(1, 0, 1, 1), Font(2, 0, 2, 1), Font(3, seed % 1000, 1, 1),
-             Font(3, seed % 1000 + 1, 2, 0), Font(0, 0, 0, 0), Font(1, 0, 1, 1, 1), Font(3, seed % 1000 + 3, 1, 0, 1)]
+             Font(3, seed % 1000 + 1, 2, 0), Font(0, 0, 0, 0), Font(1, 0, 1, 1, 1), Font(3, seed % 1000 + 3, 1, 0, 1),
+             Font(1, 0, 1, 1, 2), Font(3, seed % 1000 + 4, 1, 0, 3), Font(1, 0, 0, 0, 4)]
     if thorough:
         fonts += [Font(3, seed % 1000 + 2, 0, 1), Font(1, 0, 2, 0)]
     out = []
@@ -625,6 +632,8 @@ def api_predicate(chk, plan_):
             n += 1
             cl = [k for _, k in c["text"]]
             exp = expect_text(f, c["items"], c["level"], c["nd"], cl)
+            # a role whose feature the font lacks shows the plain glyph
+            exp = [(cp, r if f.present(r) else 0, k) for cp, r, k in exp]
             got = c["api"]
             if any(r for _, r, _ in exp) or len(exp) != len(c["text"]):
                 nontrivial += 1
@@ -642,7 +651,8 @@ def api_predicate(chk, plan_):
             rec["got(cp,role,cluster,unsafe)"] = [("U+%04X" % a if a else "notdef", ["", "ljmo", "vjmo", "tjmo"][b] if b < 4 else b, k, u)
                                                   for a, b, k, u in got]
             if any(in_known_class(f, it) for it, _ in c["items"]) and \
-                    matches(expect_text(f, c["items"], c["level"], c["nd"], cl, as_implemented=True), got):
+                    matches([(cp, r if f.present(r) else 0, k) for cp, r, k in
+                             expect_text(f, c["items"], c["level"], c["nd"], cl, as_implemented=True)], got):
                 rec["what"] = "lv-t-with-unsupported-lv-leaves-t-untagged"
                 rec["class"] = KNOWN_CLASS
                 known.append(rec)
